@@ -558,3 +558,247 @@ Section Dict.
       rewrite app_assoc. reflexivity.
   Qed.
 End Dict.
+
+(* ------------------------------------------------------------------ *)
+(* T7: HDF5 attribute round trip                                        *)
+(* ------------------------------------------------------------------ *)
+Definition roundtrippable (c : conv) : bool :=
+  match c with CFintlist | CId => false | _ => true end.
+
+Theorem attr_roundtrip : forall c v w x,
+    roundtrippable c = true ->
+    apply c v = Ok w -> h5 w = Ok x -> apply c x = Ok w.
+Proof.
+  intros c v w x Hr Ha Hx. destruct c; try discriminate Hr; cbn [apply] in *.
+  - destruct (py_str_out v w Ha) as [s Hs]. subst w. cbn [h5] in Hx.
+    destruct (forallb (fun c => negb (c =? 0)) s); [|discriminate Hx].
+    injection Hx as Hx. subst x. reflexivity.
+  - destruct (py_floatv_out v w Ha) as [f Hf]. subst w.
+    injection Hx as Hx. subst x. reflexivity.
+  - destruct (fint_out v w Ha) as [n Hn]. subst w. cbn [h5] in Hx.
+    destruct (int64_ok n); [|discriminate Hx]. injection Hx as Hx. subst x.
+    unfold fint, fint_z, py_float, py_float_scalar. cbn [bind].
+    rewrite int_of_fl_of_int. reflexivity.
+  - destruct (fbool_out v w Ha) as [b Hb]. subst w.
+    injection Hx as Hx. subst x. apply fbool_npbool.
+  - destruct (fboolorfloat_out v w Ha) as [[b Hb]|[f [Hf Hz]]]; subst w;
+      injection Hx as Hx; subst x.
+    + unfold fboolorfloat. apply fbool_npbool.
+    + apply fboolorfloat_npf64. exact Hz.
+  - destruct (f1d_out v w Ha) as [a [b Hab]]. subst w.
+    injection Hx as Hx. subst x. reflexivity.
+  - destruct (f2d_out v w Ha) as [[y Hy]|[[l Hl]|[l Hl]]]; subst w;
+      injection Hx as Hx; subst x; reflexivity.
+  - unfold lcstr in Ha. destruct v as [y| | | | |]; try discriminate Ha.
+    destruct y; try discriminate Ha; injection Ha as Ha; subst w;
+      cbn [h5] in Hx; [|discriminate Hx].
+    destruct (forallb (fun c => negb (c =? 0)) (lower s)); [|discriminate Hx].
+    injection Hx as Hx. subst x. cbn [lcstr]. rewrite lower_idem. reflexivity.
+Qed.
+
+(* values of keys without a converter (user section, min/max ranges) come
+   back from the file as numpy objects that compare equal *)
+Definition fl_eqb (a b : fl) : bool :=
+  match a, b with
+  | FFin m, FFin n => m =? n
+  | FNaN, FNaN | FPInf, FPInf | FNInf, FNInf => true
+  | _, _ => false
+  end.
+
+(* a bool array holds 0/1, an int array integers *)
+Definition wf_arr0 (v : value) : bool :=
+  match v with
+  | VArr0 DBool x => fl_eqb x (FFin 0) || fl_eqb x (FFin 8)
+  | VArr0 DInt (FFin m) => m mod 8 =? 0
+  | _ => true
+  end.
+
+Lemma forallb_impl : forall {A} (p q : A -> bool) l,
+    (forall a, p a = true -> q a = true) ->
+    forallb p l = true -> forallb q l = true.
+Proof.
+  intros A p q l Hpq H. rewrite forallb_forall in *. intros a Ha.
+  apply Hpq. apply H. exact Ha.
+Qed.
+
+Lemma seq_dtype_num : forall l d,
+    seq_dtype l = Some d -> forallb scalar_is_num l = true.
+Proof.
+  intros l d H. unfold seq_dtype in H.
+  destruct (forallb scalar_is_bool l) eqn:Eb.
+  - apply forallb_impl with (p := scalar_is_bool); [|exact Eb].
+    intros []; intro Hx; try discriminate Hx; reflexivity.
+  - destruct (forallb scalar_is_intlike l) eqn:Ei.
+    + apply forallb_impl with (p := scalar_is_intlike); [|exact Ei].
+      intros []; intro Hx; try discriminate Hx; reflexivity.
+    + destruct (forallb scalar_is_num l); [reflexivity|discriminate H].
+Qed.
+
+Lemma forallb_concat : forall {A} (p : A -> bool) l,
+    forallb p (concat l) = forallb (forallb p) l.
+Proof.
+  intros A p l. induction l as [|r l IH]; [reflexivity|].
+  cbn [concat forallb]. rewrite forallb_app, IH. reflexivity.
+Qed.
+
+Theorem h5_preserves_value : forall w x,
+    wf_arr0 w = true -> h5 w = Ok x -> nf x = nf w.
+Proof.
+  intros w x Hwf H. destruct w as [y|t l|t l|d y|d l|d l]; cbn [h5] in H.
+  - destruct y; try discriminate H;
+      try (injection H as H; subst x; reflexivity).
+    + destruct (forallb (fun c => negb (c =? 0)) s); [|discriminate H].
+      injection H as H. subst x. reflexivity.
+    + destruct (int64_ok n); [|discriminate H].
+      injection H as H. subst x. reflexivity.
+    + destruct (int64_ok n); [|discriminate H].
+      injection H as H. subst x. reflexivity.
+  - destruct (seq_dtype l) as [d|] eqn:Ed; [|discriminate H].
+    injection H as H. subst x. cbn [nf].
+    rewrite (seq_dtype_num l d Ed). reflexivity.
+  - destruct l as [|r l']; [discriminate H|].
+    destruct (all_len (length r) (r :: l')); [|discriminate H].
+    destruct (seq_dtype (concat (r :: l'))) as [d|] eqn:Ed; [|discriminate H].
+    injection H as H. subst x. cbn [nf].
+    pose proof (seq_dtype_num _ d Ed) as Hn. rewrite forallb_concat in Hn.
+    rewrite Hn. reflexivity.
+  - destruct d.
+    + injection H as H. subst x. cbn [nf nf_scalar scalar_num].
+      cbn [wf_arr0] in Hwf. destruct y as [m| | |]; try discriminate Hwf.
+      cbn [fl_eqb] in Hwf. unfold bool_of_fl, fl_is_zero, fl_of_bool.
+      destruct (m =? 0) eqn:E0; cbn [negb].
+      * f_equal. f_equal. lia.
+      * f_equal. f_equal. lia.
+    + destruct y as [m| | |]; try discriminate H.
+      injection H as H. subst x. cbn [nf nf_scalar scalar_num].
+      cbn [wf_arr0] in Hwf. unfold fl_of_int. f_equal. f_equal.
+      pose proof (Z.quot_exact m 8) as Hq.
+      assert (Z.rem m 8 = 0) as Hr.
+      { rewrite Z.rem_mod by lia.
+        assert (Z.abs m mod 8 = 0) as Hm.
+        { destruct (Z.abs_eq_or_opp m) as [Ha|Ha]; rewrite Ha; [lia|].
+          apply Z.mod_opp_l_z; lia. }
+        cbn [Z.abs]. rewrite Hm. lia. }
+      apply Hq in Hr; lia.
+    + injection H as H. subst x. reflexivity.
+  - injection H as H. subst x. reflexivity.
+  - injection H as H. subst x. reflexivity.
+Qed.
+
+Lemma h5_clean : forall w x, clean w = true -> h5 w = Ok x -> clean x = true.
+Proof.
+  intros w x Hc H. destruct w as [y|t l|t l|d y|d l|d l]; cbn [h5] in H.
+  - destruct y; try discriminate H; try discriminate Hc;
+      try (injection H as H; subst x; reflexivity).
+    + destruct (forallb (fun c => negb (c =? 0)) s); [|discriminate H].
+      injection H as H. subst x. exact Hc.
+    + destruct (int64_ok n); [|discriminate H].
+      injection H as H. subst x. reflexivity.
+    + destruct (int64_ok n); [|discriminate H].
+      injection H as H. subst x. reflexivity.
+  - destruct (seq_dtype l); [|discriminate H].
+    injection H as H. subst x. reflexivity.
+  - destruct l as [|r l']; [discriminate H|].
+    destruct (all_len (length r) (r :: l')); [|discriminate H].
+    destruct (seq_dtype (concat (r :: l'))); [|discriminate H].
+    injection H as H. subst x. reflexivity.
+  - destruct d; try (injection H as H; subst x; reflexivity).
+    destruct y; try discriminate H. injection H as H. subst x. reflexivity.
+  - injection H as H. subst x. reflexivity.
+  - injection H as H. subst x. reflexivity.
+Qed.
+
+Section Route.
+  Variable tbl : list row.
+  Variable feats : list str.
+  Variable sections : list str.
+
+  (* writing an entry of a metadata section with RTDCWriter.store_metadata
+     and re-opening the file stores the same value as assigning it *)
+  Theorem h5_route_agrees : forall sec key v v1 w x d,
+      lower key = key ->
+      str_eqb sec s_user = false ->
+      mem_str sec sections = true ->
+      key_exists tbl feats sec key = true ->
+      roundtrippable (func_of tbl sec key) = true ->
+      decode v = Ok v1 -> clean v1 = true ->
+      apply (func_of tbl sec key) v1 = Ok w -> h5 w = Ok x ->
+      h5_route tbl feats sections sec key v d = setitem tbl feats sec key v d
+      /\ setitem tbl feats sec key v d = Done (dset d key w) [].
+  Proof.
+    intros sec key v v1 w x d Hl Hu Hs Hk Hr Ed Hc Ha Hx.
+    assert (verify tbl feats sec key = None) as Hv.
+    { unfold verify. rewrite Hk. reflexivity. }
+    assert (setitem tbl feats sec key v d = Done (dset d key w) []) as E1.
+    { rewrite setitem_eq, Ed, Hl.
+      rewrite (warns_nil_clean _ _ _ _ _ Hv Hc). rewrite Ha. reflexivity. }
+    split; [|exact E1]. rewrite E1.
+    unfold h5_route. rewrite Ed, Hu, Hs, Hk. cbn [negb orb].
+    rewrite Ha, Hx.
+    pose proof (apply_clean _ _ _ Hc Ha) as Hcw.
+    pose proof (h5_clean _ _ Hcw Hx) as Hcx.
+    rewrite setitem_eq, (decode_of_clean x Hcx), Hl.
+    rewrite (warns_nil_clean _ _ _ _ _ Hv Hcx).
+    rewrite (attr_roundtrip _ _ _ _ Hr Ha Hx). reflexivity.
+  Qed.
+End Route.
+
+(* ------------------------------------------------------------------ *)
+(* T8: results have the type documented for the converter               *)
+(* ------------------------------------------------------------------ *)
+Definition not_bytes (v : value) : bool :=
+  match v with VS (SBytes _) => false | _ => true end.
+
+Theorem apply_out_type : forall c v w,
+    c <> CId -> not_bytes v = true -> apply c v = Ok w ->
+    has_some_type (out_types c) w = true.
+Proof.
+  intros c v w Hc Hb H. destruct c; cbn [apply] in H;
+    try (exfalso; apply Hc; reflexivity).
+  - destruct (py_str_out v w H) as [s Hs]. subst w. reflexivity.
+  - destruct (py_floatv_out v w H) as [f Hf]. subst w. reflexivity.
+  - destruct (fint_out v w H) as [n Hn]. subst w. reflexivity.
+  - destruct (fbool_out v w H) as [b Hb']. subst w. reflexivity.
+  - destruct (fboolorfloat_out v w H) as [[b Hb']|[f [Hf _]]]; subst w;
+      reflexivity.
+  - destruct (fintlist_out v w H) as [ns Hns]. subst w. reflexivity.
+  - destruct (f1d_out v w H) as [a [b Hab]]. subst w. reflexivity.
+  - destruct (f2d_out v w H) as [[x Hx]|[[l Hl]|[l Hl]]]; subst w;
+      reflexivity.
+  - unfold lcstr in H. destruct v as [x| | | | |]; try discriminate H.
+    destruct x; try discriminate H; try discriminate Hb.
+    injection H as H. subst w. reflexivity.
+Qed.
+
+Lemma type_covers_sound : forall t u w,
+    type_covers t u = true -> has_type u w = true -> has_type t w = true.
+Proof.
+  intros t u w Hc Hu.
+  destruct t, u; try discriminate Hc; try exact Hu;
+    destruct w as [x|tt l|tt l|d x|d l|d l]; try discriminate Hu;
+    try reflexivity;
+    destruct x; try discriminate Hu; reflexivity.
+Qed.
+
+Lemma covers_some_type : forall ts us w,
+    forallb (fun u => existsb (fun t => type_covers t u) ts) us = true ->
+    has_some_type us w = true -> has_some_type ts w = true.
+Proof.
+  intros ts us w Hall Hw. unfold has_some_type in *.
+  apply existsb_exists in Hw. destruct Hw as [u [Hin Hu]].
+  rewrite forallb_forall in Hall. specialize (Hall u Hin).
+  apply existsb_exists in Hall. destruct Hall as [t [Htin Hc]].
+  apply existsb_exists. exists t. split; [exact Htin|].
+  apply type_covers_sound with (u := u); assumption.
+Qed.
+
+Definition conv_eqb (a b : conv) : bool :=
+  match a, b with
+  | CStr, CStr | CFloat, CFloat | CFint, CFint | CFbool, CFbool
+  | CFboolorfloat, CFboolorfloat | CFintlist, CFintlist | CF1d, CF1d
+  | CF2d, CF2d | CLcstr, CLcstr | CId, CId => true
+  | _, _ => false
+  end.
+
+Lemma conv_eqb_eq : forall a b, conv_eqb a b = true -> a = b.
+Proof. intros [] []; intro H; try discriminate H; reflexivity. Qed.
